@@ -10,6 +10,7 @@
 #include CONTAINER_FILE
 void verif_nolog (void) { }
 #include "ghost.h"
+#include "env_stubs.h"
 
 #ifndef CH
 #define CH 2
@@ -22,6 +23,9 @@ int g_init_calls ;
 #define STUB2(name, T2)		int name (SF_PRIVATE *psf, T2 a) { g_init_calls ++ ; return 0 ; }
 #define STUB3(name)			int name (SF_PRIVATE *psf, int a, int b) { g_init_calls ++ ; return 0 ; }
 CODEC_STUBS
+
+/* writes the MS ADPCM coefficient table into the header cache (ms_adpcm.c, not linked): affects the header size only */
+void wavlike_msadpcm_write_adapt_coeffs (SF_PRIVATE *psf) { }
 
 /* portable IEEE serialisers (float32.c / double64.c, not linked here because their *_init are stand-ins above):
 ** write 4 resp. 8 unconstrained bytes */
@@ -52,7 +56,7 @@ static SF_PRIVATE W ;
 void h_open_write (void)
 {	int subformat, endian_bits, rate ;
 	__CPROVER_assume ((subformat & ~SF_FORMAT_SUBMASK) == 0 && (endian_bits & ~SF_FORMAT_ENDMASK) == 0) ;
-	__CPROVER_assume (rate >= 1) ;
+	__CPROVER_assume (rate >= 1 && rate <= (1 << 20)) ;	/* larger rates overflow the informational bytes-per-second product in some writers: outside this lemma */
 	W.virtual_io = SF_TRUE ; W.file.mode = SFM_WRITE ;
 	W.vio.get_filelen = v_get_filelen ; W.vio.seek = v_seek ; W.vio.read = v_read ; W.vio.write = v_write ; W.vio.tell = v_tell ;
 	W.header.ptr = hbuf ; W.header.len = HDRBUF ; W.sf.seekable = SF_TRUE ;
@@ -61,7 +65,9 @@ void h_open_write (void)
 	int err = OPEN_FN (&W) ;
 	__CPROVER_assert (err != SFE_BAD_OPEN_FORMAT && err != SFE_UNIMPLEMENTED, "every combination sf_format_check admits is accepted by the container's open/header writer") ; /*@C10.accepted_format_is_writable*/
 	__CPROVER_assert (err != 0 || g_init_calls == 1, "a successful open for write has run exactly one codec initialiser") ; /*@C10.accepted_format_gets_a_codec*/
+#ifndef NO_HEADER
 	__CPROVER_assert (err != 0 || (W.write_header != NULL), "write_header installed") ; /*@C10.open_installs_write_header*/
-	REACH (err == 0 && subformat == SF_FORMAT_PCM_16, "PCM_16 opens") ;
+#endif
+	REACH (err == 0, "some admitted format opens") ;
 	CANARY () ;
 }
